@@ -17,4 +17,34 @@ func (r *Request) HTTPHeader() (h http.Header)
   trusted
   pure
   ensures ref(h) == headerOf(r)
+
+// ---- C07: body limits ----
+pred effLimit(max int) := max == 0 ? 4194304 : max
+pred bodyOf(r *Request) := ifaceVal(r.Request.Body)
+
+func (r *Request) FetchPayload(maxPayloadSize int64) (err error)
+  requires r != nil && r.Request != nil && r.Request.Body != nil && bodyOf(r) != 0 && rdRem[bodyOf(r)] >= 0
+  modifies r.stream, r.payload, rdRem, limUnder, limN
+  ensures stream-on-negative-limit: effLimit(maxPayloadSize) < 0 ==> err == nil && r.stream != nil
+  ensures declared-too-large-rejected-unread: effLimit(maxPayloadSize) >= 0 && r.Request.ContentLength > effLimit(maxPayloadSize) ==> err == ErrRequestEntityTooLarge && rdRem[bodyOf(r)] == old(rdRem[bodyOf(r)])
+  ensures declared-fits: effLimit(maxPayloadSize) >= 0 && 0 < r.Request.ContentLength && r.Request.ContentLength <= effLimit(maxPayloadSize) && old(rdRem[bodyOf(r)]) >= r.Request.ContentLength && !rdFail[bodyOf(r)] ==> err == nil && len(r.payload) == r.Request.ContentLength && r.stream == nil
+  ensures short-body-is-an-error: effLimit(maxPayloadSize) >= 0 && 0 < r.Request.ContentLength && r.Request.ContentLength <= effLimit(maxPayloadSize) && old(rdRem[bodyOf(r)]) < r.Request.ContentLength ==> err != nil
+  ensures declared-empty: effLimit(maxPayloadSize) >= 0 && r.Request.ContentLength == 0 ==> err == nil && len(r.payload) == 0 && r.stream == nil
+  ensures chunked-within-limit-passes-intact: effLimit(maxPayloadSize) >= 0 && r.Request.ContentLength < 0 && old(rdRem[bodyOf(r)]) <= effLimit(maxPayloadSize) && !rdFail[bodyOf(r)] ==> err == nil && len(r.payload) == old(rdRem[bodyOf(r)]) && r.stream == nil
+  ensures chunked-over-limit-rejected: effLimit(maxPayloadSize) >= 0 && r.Request.ContentLength < 0 && old(rdRem[bodyOf(r)]) > effLimit(maxPayloadSize) && !rdFail[bodyOf(r)] ==> err == ErrRequestEntityTooLarge
+  ensures success-never-exceeds-limit: effLimit(maxPayloadSize) >= 0 && err == nil ==> len(r.payload) <= effLimit(maxPayloadSize)
+
+pred respBodyOf(r *Response) := ifaceVal(r.Response.Body)
+
+func (r *Response) FetchPayload(maxPayloadSize int64) (err error)
+  requires r != nil && r.Response != nil && r.Response.Body != nil && respBodyOf(r) != 0 && rdRem[respBodyOf(r)] >= 0
+  modifies r.stream, r.payload, rdRem, limUnder, limN
+  ensures stream-on-negative-limit: effLimit(maxPayloadSize) < 0 ==> err == nil && r.stream != nil
+  ensures declared-too-large-rejected-unread: effLimit(maxPayloadSize) >= 0 && r.Response.ContentLength > effLimit(maxPayloadSize) ==> err == ErrResponseEntityTooLarge && rdRem[respBodyOf(r)] == old(rdRem[respBodyOf(r)])
+  ensures declared-fits: effLimit(maxPayloadSize) >= 0 && 0 < r.Response.ContentLength && r.Response.ContentLength <= effLimit(maxPayloadSize) && old(rdRem[respBodyOf(r)]) >= r.Response.ContentLength && !rdFail[respBodyOf(r)] ==> err == nil && len(r.payload) == r.Response.ContentLength && r.stream == nil
+  ensures short-body-is-an-error: effLimit(maxPayloadSize) >= 0 && 0 < r.Response.ContentLength && r.Response.ContentLength <= effLimit(maxPayloadSize) && old(rdRem[respBodyOf(r)]) < r.Response.ContentLength ==> err != nil
+  ensures declared-empty: effLimit(maxPayloadSize) >= 0 && r.Response.ContentLength == 0 ==> err == nil && len(r.payload) == 0 && r.stream == nil
+  ensures chunked-within-limit-passes-intact: effLimit(maxPayloadSize) >= 0 && r.Response.ContentLength < 0 && old(rdRem[respBodyOf(r)]) <= effLimit(maxPayloadSize) && !rdFail[respBodyOf(r)] ==> err == nil && len(r.payload) == old(rdRem[respBodyOf(r)]) && r.stream == nil
+  ensures chunked-over-limit-rejected: effLimit(maxPayloadSize) >= 0 && r.Response.ContentLength < 0 && old(rdRem[respBodyOf(r)]) > effLimit(maxPayloadSize) && !rdFail[respBodyOf(r)] ==> err == ErrResponseEntityTooLarge
+  ensures success-never-exceeds-limit: effLimit(maxPayloadSize) >= 0 && err == nil ==> len(r.payload) <= effLimit(maxPayloadSize)
 @*/
